@@ -89,39 +89,6 @@ theorem readName_plain {buf : Bytes} {pos q : Nat} (h : Plain buf pos q) (n : Na
 
 /-! ### inversion of the primitive readers -/
 
-theorem pop_inv {buf : Bytes} {st st1 : DSt} {b : Nat} (h : Rd.pop buf st = (.ok b, st1)) :
-    buf[st.pos]? = some b ∧ st1.pos = st.pos + 1 := by
-  unfold Rd.pop at h
-  cases hg : buf[st.pos]? with
-  | none => rw [hg] at h; simp at h
-  | some v =>
-    rw [hg] at h
-    simp only [Prod.mk.injEq, Outcome.ok.injEq] at h
-    exact ⟨by rw [h.1], by rw [← h.2]⟩
-
-theorem pure_inv {α} {a b : α} {buf : Bytes} {st st1 : DSt} (h : Rd.pure a buf st = (.ok b, st1)) :
-    a = b ∧ st1 = st := by
-  simp only [Rd.pure, Prod.mk.injEq, Outcome.ok.injEq] at h
-  exact ⟨h.1, h.2.symm⟩
-
-theorem readU16_inv {buf : Bytes} {st st1 : DSt} {v : Nat} (h : Rd.readU16 buf st = (.ok v, st1)) :
-    ∃ a b, (buf.drop st.pos).take 2 = [a, b] ∧ v = a * 256 + b ∧ st1.pos = st.pos + 2 ∧
-      st.pos + 2 ≤ buf.length := by
-  unfold Rd.readU16 at h
-  obtain ⟨s, s1, h1, h2⟩ := bind_ok h
-  unfold Rd.readSlice at h1
-  by_cases hc : 2 > buf.length - st.pos
-  · simp [hc] at h1
-  · simp only [hc, ↓reduceIte, Prod.mk.injEq, Outcome.ok.injEq] at h1
-    obtain ⟨hs, hs1⟩ := h1
-    match s, hs, h2 with
-    | [a, b], hs, h2 =>
-      obtain ⟨hv, hst⟩ := pure_inv h2
-      exact ⟨a, b, hs, hv.symm, by rw [hst, ← hs1], by omega⟩
-    | [], hs, h2 => simp [Rd.panic] at h2
-    | [_], hs, h2 => simp [Rd.panic] at h2
-    | _ :: _ :: _ :: _, hs, h2 => simp [Rd.panic] at h2
-
 theorem name_inv {buf : Bytes} {st st1 : DSt} {n : Name} (h : Rd.name buf st = (.ok n, st1)) :
     readName buf st.pos = .ok (n, st1.pos) := by
   unfold Rd.name at h
